@@ -399,6 +399,108 @@ pub fn random_ir(t: &mut Tape) -> Value {
     json!({"version": 1, "errors": errors, "types": types, "services": services, "extensions": {}})
 }
 
+/// IRs rich in reference cycles: rings of objects whose members reach doubles,
+/// bearer tokens and unannotated strings through differently ordered fields,
+/// plus outsiders (objects, unions, aliases, errors, endpoint arguments) that
+/// refer into the ring.  This is where order-dependent memoisation lives.
+pub fn cyclic_ir(t: &mut Tape) -> Value {
+    let pkg = |t: &mut Tape| -> &'static str { *t.pick(&["com.palantir.ring", "com.palantir.ring.inner", "com.palantir.other"]) };
+    let k = 2 + t.draw(3) as usize;
+    let ring: Vec<(String, &'static str)> = (0..k).map(|i| (format!("Ring{}", i), pkg(t))).collect();
+    let rref = |i: usize| json!({"type": "reference", "reference": {"name": ring[i].0, "package": ring[i].1}});
+    let leaf = |t: &mut Tape| -> Value {
+        json!({"type": "primitive", "primitive": *t.pick(&["DOUBLE", "DOUBLE", "BEARERTOKEN", "STRING", "INTEGER", "UUID", "BINARY"])})
+    };
+    let wrap = |t: &mut Tape, inner: Value| -> Value {
+        match t.draw(4) {
+            0 => json!({"type": "optional", "optional": {"itemType": inner}}),
+            1 => json!({"type": "list", "list": {"itemType": inner}}),
+            2 => json!({"type": "set", "set": {"itemType": inner}}),
+            _ => json!({"type": "map", "map": {"keyType": {"type": "primitive", "primitive": "STRING"}, "valueType": inner}}),
+        }
+    };
+    let mut types = Vec::new();
+    for i in 0..k {
+        let mut fields: Vec<Value> = Vec::new();
+        // the link that closes the ring is always below a container; the others may be direct
+        let next = (i + 1) % k;
+        let link = if next == 0 || t.chance(1, 2) { wrap(t, rref(next)) } else { rref(next) };
+        fields.push(json!({"fieldName": "next", "type": link}));
+        for (j, name) in ["weight", "label", "extra"].iter().enumerate() {
+            if t.chance(1, 2) {
+                let lf = leaf(t);
+                let fty = if t.chance(1, 3) { wrap(t, lf) } else { lf };
+                let mut f = json!({"fieldName": name, "type": fty});
+                if j == 1 && t.chance(1, 4) {
+                    f["safety"] = json!(*t.pick(&["SAFE", "UNSAFE", "DO_NOT_LOG"]));
+                }
+                fields.push(f);
+            }
+        }
+        if k > 2 && t.chance(1, 3) {
+            let other = t.draw(k as u64) as usize;
+            fields.push(json!({"fieldName": "chord", "type": wrap(t, rref(other))}));
+        }
+        // field order decides which way the memoised walkers enter the cycle
+        for a in (1..fields.len()).rev() {
+            let b = t.draw(a as u64 + 1) as usize;
+            fields.swap(a, b);
+        }
+        types.push(json!({"type": "object", "object": {"typeName": {"name": ring[i].0, "package": ring[i].1}, "fields": fields}}));
+    }
+    let n_out = 1 + t.draw(4) as usize;
+    let mut outsiders: Vec<(String, &'static str)> = Vec::new();
+    for o in 0..n_out {
+        let name = format!("Outsider{}", o);
+        let p = pkg(t);
+        let target = rref(t.draw(k as u64) as usize);
+        let def = match t.draw(3) {
+            0 => json!({"type": "object", "object": {"typeName": {"name": name, "package": p}, "fields": [
+                {"fieldName": "entries", "type": wrap(t, target)},
+                {"fieldName": "name", "type": {"type": "primitive", "primitive": "STRING"}}]}}),
+            1 => json!({"type": "union", "union": {"typeName": {"name": name, "package": p}, "union": [
+                {"fieldName": "ring", "type": target},
+                {"fieldName": "none", "type": {"type": "primitive", "primitive": "INTEGER"}}]}}),
+            _ => json!({"type": "alias", "alias": {"typeName": {"name": name, "package": p}, "alias": wrap(t, target)}}),
+        };
+        outsiders.push((name, p));
+        types.push(def);
+    }
+    // declaration order of the IR is part of the input: shuffle it
+    for a in (1..types.len()).rev() {
+        let b = t.draw(a as u64 + 1) as usize;
+        types.swap(a, b);
+    }
+    let any_ref = |t: &mut Tape| -> Value {
+        if t.chance(1, 2) {
+            rref(t.draw(k as u64) as usize)
+        } else {
+            let (n, p) = &outsiders[t.draw(outsiders.len() as u64) as usize];
+            json!({"type": "reference", "reference": {"name": n, "package": p}})
+        }
+    };
+    let mut eps = Vec::new();
+    for e in 0..1 + t.draw(4) {
+        let mut args = vec![json!({"argName": "body", "type": any_ref(t), "paramType": {"type": "body", "body": {}}, "markers": [], "tags": []})];
+        if t.chance(1, 2) {
+            args.push(json!({"argName": "q", "type": {"type": "primitive", "primitive": "STRING"}, "paramType": {"type": "query", "query": {"paramId": "q"}}, "markers": [], "tags": []}));
+        }
+        let mut ep = json!({"endpointName": format!("hold{}", e), "httpMethod": "POST", "httpPath": format!("/ring/{}", e), "args": args, "markers": [], "tags": []});
+        if t.chance(1, 2) {
+            ep["returns"] = any_ref(t);
+        }
+        eps.push(ep);
+    }
+    let errors = if t.chance(1, 2) {
+        json!([{ "errorName": {"name": "RingError", "package": "com.palantir.ring"}, "namespace": "Ring", "code": "INVALID_ARGUMENT",
+                 "safeArgs": [{"fieldName": "member", "type": any_ref(t)}], "unsafeArgs": [{"fieldName": "other", "type": any_ref(t)}] }])
+    } else {
+        json!([])
+    };
+    json!({"version": 1, "errors": errors, "types": types,
+           "services": [{"serviceName": {"name": "HolderService", "package": "com.palantir.ring"}, "endpoints": eps}], "extensions": {}})
+}
+
 const REPO_IRS: &[&str] = &[
     "/repo/conjure-test/test-ir.json",
     "/repo/conjure-codegen/example-types-ir.json",
@@ -425,10 +527,15 @@ impl Engine for GenEngine {
 
     fn run(&self, ctx: &Ctx, _variant: u64) {
         // ---- scenario
-        let (ir_label, ir_text) = match ctx.draw(8) {
+        let (ir_label, ir_text) = match ctx.draw(12) {
             i @ 0..=4 => {
                 let p = REPO_IRS[i as usize];
                 (p.to_string(), std::fs::read_to_string(p).unwrap_or_default())
+            }
+            5..=8 => {
+                let v = ctx.with_tape(cyclic_ir);
+                ctx.count("probe.cyclic_ir");
+                ("cyclic".to_string(), v.to_string())
             }
             _ => {
                 let v = ctx.with_tape(random_ir);
